@@ -8,8 +8,8 @@ from ..kernels import contraction_normal_form, expect_labels, K_labels, gather_t
 from ..stencil import Gather, Stack, Contract, c
 from ..stencil_spec import Finding, check_moment_kernel, Cm
 from ..report import AnalysisError
-from .momfam import run_kernel, report, sub_extractor
-from .difffam import check_diff_extractor, order_vector_of_core
+from .momfam import run_kernel, run_kernel_forks, cover_rule, report, sub_extractor
+from .difffam import check_diff_extractor, order_vector_of_core, shell_roles
 from .mpt import must_pass_through
 
 MOM = "gbasis.integrals.momentum.MomentumIntegral.construct_array_contraction"
@@ -56,6 +56,55 @@ def mirror_kinds(repo):
     return out
 
 
+def analyse_momentum(repo, R, f, ex, findings, tag=""):
+    """The momentum kernel on one path through its scalar branches (`tag` names the outcome of each)."""
+    st, ret = ex.returns[-1]
+    labs = [l.base for l in (ret.labels or [])]
+    ok = len(labs) == 5 and labs[:4] == K_labels(2) and isinstance(labs[4], tuple) and labs[4][0] == "ordrow"
+    if not ok:
+        findings.append(Finding("K", None, f"MomentumIntegral returns axes {ret.labels}; contract K requires (M_1, L_1, M_2, L_2, xyz-of-operator)",
+                                construct="returned axes", expected="(M_1, L_1, M_2, L_2, component)", found=str(ret.labels)))
+    else:
+        rows = ex.shared["order_tables"][labs[4][1]]
+        if [tuple(r) for r in rows] != [(1, 0, 0), (0, 1, 0), (0, 0, 1)]:
+            findings.append(Finding("ORDERS", None, f"the derivative orders along the last axis are {rows}; components must be d/dx, d/dy, d/dz in this order",
+                                    construct="order table", expected="[[1,0,0],[0,1,0],[0,0,1]]", found=str(rows)))
+    dsubs = sub_extractor(ex, "_compute_differential_operator_integrals_intermediate")
+    if len(dsubs) != 1:
+        raise AnalysisError("STENCIL", "the momentum kernel does not reach the derivative table exactly once", f.where())
+    info = check_diff_extractor(repo, dsubs[0], findings)
+    minfo = check_moment_kernel(repo, info["moment"].func, None, findings, ex=info["moment"])
+    for s_, name_, _r in minfo["stores"]:
+        if not [fd for fd in findings if fd.store is s_]:
+            R.ok(name_, s_.func.site, s_.text, detail="conforms (momentum)")
+    roles = shell_roles(minfo, info)
+    cf, rest = split_numeric(ret.e)
+    if info.get("exchanged"):
+        # <a| d/dx |b> = -<b| d/dx |a> (integration by parts): on a path that computes the integrals with the shells exchanged the sign
+        # of the first derivative must be put back
+        if cf != sp.I:
+            findings.append(Finding("PARITY", None, f"{tag} the integrals are computed with the two shells exchanged (the derivative is taken on the other "
+                                                    f"function) and only transposed back: the first derivative is antisymmetric under the exchange, so the "
+                                                    f"prefactor on this path must be +i, found {cf} (anti-Hermitian-looking blocks whenever this path is taken)",
+                                    construct=f"exchanged path {tag}", expected="I", found=str(cf)))
+    elif cf != -sp.I:
+        findings.append(Finding("UNIT", None, f"symbolic prefactor of the momentum kernel is {cf}", construct="prefactor", expected="-I", found=str(cf)))
+    nf = contraction_normal_form(type("X", (), {"e": rest})(), 2, findings, f)
+    if nf is not None and ok:
+        core, factors = nf
+        rowsym = sp.Symbol("row")
+        for k in range(3):
+            v = order_vector_of_core(ex, core.subs(rowsym, k), findings, f, roles, dsubs[0].all_tables[0])
+    for s, name in info["stores"]:
+        if not [fd for fd in findings if fd.store is s]:
+            R.ok(name, s.func.site, s.text, detail="conforms")
+    if not [fd for fd in findings if fd.rule in ("K", "LIN", "GATHER", "ORDERS")]:
+        R.ok("K", f.site, "returns (M_1, L_1, M_2, L_2, xyz)")
+        R.ok("ORDERS", f.site, "rows e_x, e_y, e_z")
+        R.ok("LIN", f.site, "coef_s * NPC_s once per shell")
+        R.ok("GATHER", f.site, "prod_c D[order_row(c), comp_2(c), comp_1(c), c]")
+
+
 def run(repo, R):
     from .momfam import compose_state_rules as _csr
     _csr(R, repo, ['gbasis/integrals/momentum.py', 'gbasis/integrals/angular_momentum.py', 'gbasis/integrals/_diff_operator_int.py', 'gbasis/integrals/_moment_int.py', 'gbasis/contractions.py', 'gbasis/spherical.py', 'gbasis/utils.py', 'gbasis/base.py', 'gbasis/base_one.py', 'gbasis/base_two_symm.py', 'gbasis/base_two_asymm.py', 'gbasis/base_four_symm.py'], "the property holds for every call, also after a shell's parameters were changed through its setters")
@@ -72,6 +121,7 @@ def run(repo, R):
         check_wrapper_dispatch(repo, _wf, R, "DISPATCH")
     R.rule("HERM", "the kernels are (imaginary unit) x (real) and the symmetric fill mirrors blocks by the adjoint (conjugate transpose), never in place")
     R.rule("UNIT", "the scalar prefactor of both kernels is -i (operators -i grad and -i r x grad)")
+    R.rule("PARITY", "a path that computes the momentum integrals with the two shells exchanged restores the sign (-1)^1 of the integration by parts")
     R.rule("S0", "base entry of the shared overlap/moment table is the 1-D Gaussian product integral")
     R.rule("Sa", "Obara-Saika step on the first index: M[i] = (P-A) M[i-1] + (i-1)/(2p) M[i-2]")
     R.rule("Sb", "Obara-Saika step on the second index with the coupling i/(2p) M[i-1, j-1]")
@@ -114,45 +164,11 @@ def run(repo, R):
                        "conjugated, so both triangles carry the same sign", where=mf.where(n), expected="np.conjugate(...) of a copy")
     # ---------------------------------------------------------------- momentum
     findings = []
-    f, ex = run_kernel(repo, R, MOM)
-    if ex is not None:
-        st, ret = ex.returns[-1]
-        labs = [l.base for l in (ret.labels or [])]
-        ok = len(labs) == 5 and labs[:4] == K_labels(2) and isinstance(labs[4], tuple) and labs[4][0] == "ordrow"
-        if not ok:
-            findings.append(Finding("K", None, f"MomentumIntegral returns axes {ret.labels}; contract K requires (M_1, L_1, M_2, L_2, xyz-of-operator)",
-                                    construct="returned axes", expected="(M_1, L_1, M_2, L_2, component)", found=str(ret.labels)))
-        else:
-            rows = ex.shared["order_tables"][labs[4][1]]
-            if [tuple(r) for r in rows] != [(1, 0, 0), (0, 1, 0), (0, 0, 1)]:
-                findings.append(Finding("ORDERS", None, f"the derivative orders along the last axis are {rows}; components must be d/dx, d/dy, d/dz in this order",
-                                        construct="order table", expected="[[1,0,0],[0,1,0],[0,0,1]]", found=str(rows)))
-        dsubs = sub_extractor(ex, "_compute_differential_operator_integrals_intermediate")
-        if len(dsubs) != 1:
-            raise AnalysisError("STENCIL", "the momentum kernel does not reach the derivative table exactly once", f.where())
-        info = check_diff_extractor(repo, dsubs[0], findings)
-        minfo = check_moment_kernel(repo, info["moment"].func, None, findings, ex=info["moment"])
-        for s_, name_, _r in minfo["stores"]:
-            if not [fd for fd in findings if fd.store is s_]:
-                R.ok(name_, s_.func.site, s_.text, detail="conforms (momentum)")
-        roles = {k: v for k, v in minfo["axis_role"].items() if v in ("a", "b")}
-        cf, rest = split_numeric(ret.e)
-        if cf != -sp.I:
-            findings.append(Finding("UNIT", None, f"symbolic prefactor of the momentum kernel is {cf}", construct="prefactor", expected="-I", found=str(cf)))
-        nf = contraction_normal_form(type("X", (), {"e": rest})(), 2, findings, f)
-        if nf is not None and ok:
-            core, factors = nf
-            rowsym = sp.Symbol("row")
-            for k in range(3):
-                v = order_vector_of_core(ex, core.subs(rowsym, k), findings, f, roles, dsubs[0].all_tables[0])
-        for s, name in info["stores"]:
-            if not [fd for fd in findings if fd.store is s]:
-                R.ok(name, s.func.site, s.text, detail="conforms")
-        if not [fd for fd in findings if fd.rule in ("K", "LIN", "GATHER", "ORDERS")]:
-            R.ok("K", f.site, "returns (M_1, L_1, M_2, L_2, xyz)")
-            R.ok("ORDERS", f.site, "rows e_x, e_y, e_z")
-            R.ok("LIN", f.site, "coef_s * NPC_s once per shell")
-            R.ok("GATHER", f.site, "prod_c D[order_row(c), comp_2(c), comp_1(c), c]")
+    f, forks = run_kernel_forks(repo, R, MOM)
+    for tag, ex in forks:
+        if ex is not None:
+            cover_rule(R, f, ex, tag=tag)
+            analyse_momentum(repo, R, f, ex, findings, tag)
     report(R, f, findings)
     # ---------------------------------------------------------------- angular momentum
     findings = []
